@@ -152,7 +152,7 @@ def req_record(req: dict, flavour: dict) -> dict:
     return {"cop": cop, "verb": [asc(v) for v in req.get("verb", [])], "lic": list(req["lic"]), "con": [asc(c) for c in req["con"]],
             "merge": bool(flavour.get("merge")), "skipExisting": bool(flavour.get("skip_existing")),
             "skipUnrecognised": bool(flavour.get("skip_unrecognised")),
-            "rendersCon": flavour.get("template") not in ("nocon", "droplic", "dropcop", "dropall", "pydrop", "pydroplic"),
+            "rendersCon": flavour.get("template") not in ("nocon", "droplic", "dropcop", "dropall", "pydrop", "pydroplic", "pydropcop"),
             "noReplace": bool(flavour.get("no_replace"))}
 
 
@@ -195,6 +195,9 @@ def run_history(case: dict) -> list:
             (tdir / f"{k}.jinja2").write_text(v)
         (tdir / "pycommented.commented.jinja2").write_text(COMMENTED)
         (tdir / "pydrop.commented.jinja2").write_text("# Example header without any information\n#\n# All rights reserved.\n")
+        (tdir / "pydropcop.commented.jinja2").write_text(
+            "# Fixed notice of the company, no holder of the file\n#\n{% for expression in spdx_expressions %}\n"
+            "# SPDX-License-Identifier: {{ expression }}\n{% endfor %}\n")
         (tdir / "pydroplic.commented.jinja2").write_text(
             "{% for copyright_line in copyright_lines %}\n# {{ copyright_line }}\n{% endfor %}\n#\n# Licence: see LICENSE\n")
         styles = {s["name"]: s for s in annmodel.style_table()}
@@ -223,7 +226,11 @@ def run_history(case: dict) -> list:
             snap0 = tree_snapshot(root)
             # what is named on the command line may be directories (with --recursive) while `names` are the files observed
             cmd = [*req_options(req), *flavour_options(fl), *[str(root / n) for n in step.get("cli_targets", names)]]
-            r = core.run_reuse(["--root", str(root), "annotate", *cmd])
+            if step.get("hashseed") is not None:
+                # the order in which annotate visits its files follows the string hash seed: a fresh interpreter per seed
+                r = core.run_reuse_subprocess(["--root", str(root), "annotate", *cmd], env={"PYTHONHASHSEED": str(step["hashseed"])})
+            else:
+                r = core.run_reuse(["--root", str(root), "annotate", *cmd])
             snap1 = tree_snapshot(root)
             post = {n: observe(root, n, req_texts) for n in names}
             fmeta = {f["name"]: f for f in case["files"]}
